@@ -18,14 +18,17 @@ coqproject: gen
 	 else mv _CoqProject.new _CoqProject; coq_makefile -f _CoqProject -o Makefile.coq; fi; \
 	 test -f Makefile.coq || coq_makefile -f _CoqProject -o Makefile.coq
 
+# -k and a leading '-': one family's broken file must not stop the others from building;
+# every check rebuilds and re-checks exactly the .vo files its property needs and reports them.
 coq: coqproject
-	cd coq && timeout $(COQTIMEOUT) $(MAKE) -f Makefile.coq -j16 -k
+	-cd coq && timeout $(COQTIMEOUT) $(MAKE) -f Makefile.coq -j16 -k
 
 # one .vo (used by the checks so that a broken proof elsewhere does not block a property)
 vo-%: coqproject
 	cd coq && timeout $(COQTIMEOUT) $(MAKE) -f Makefile.coq -j16 -k $(subst __,/,$*).vo
 
-models: $(MODELS)
+models:
+	-$(MAKE) -k $(MODELS)
 
 build/%_model: coq/Extract/Extract_%.v driver/%_main.ml driver/common.ml coq/Extract/Extract_%.vo
 	@mkdir -p build/ocaml/$*
